@@ -251,7 +251,7 @@ func c13DirWorker(c *mc.Ctx, depth int) {
 						mu.Unlock()
 						bad := ""
 						if exit != 0 {
-							bad = "lox failed over a directory holding generated files of an earlier run: " + firstLine(se)
+							bad = "lox failed over a directory holding generated files of an earlier run: " + c13RunRe.ReplaceAllString(strings.ReplaceAll(firstLine(se), r.root, "<tmp>"), "runN")
 						} else {
 							for _, f := range c13Gen {
 								if out[f] != r.fresh[ev.Cfg][f] {
@@ -297,6 +297,8 @@ func c13DirWorker(c *mc.Ctx, depth int) {
 // one process walks through every ordered pair of configurations with the real
 // codegen.Generate (packages.Load included); the second generation of each
 // pair must produce exactly what a fresh process produces.
+
+var c13RunRe = regexp.MustCompile(`run[0-9]+`)
 
 var c13TmpRe = regexp.MustCompile(`loxmc\.c13c\.[0-9]+`)
 
